@@ -18,7 +18,9 @@ RULE = ("one structure per program, sent as the payload of ipv4::udp::unicast (s
         "combinations of the optional arguments of client_hello and server_hello, each with 0, 1 and 3 extensions; "
         "random nestings to depth 5 of every helper inside every helper that takes bytes (extension in hello in "
         "record, len helper in extension, sni/certificates/options/RRs inside len helpers, ...).  Sizes that do not fit "
-        "the field (256 under a u8, 65536 under a be16) are outside the property: compared with the model only.  "
+        "the field (256 under a u8, 65536 under a be16) are outside the property: compared with the model, and a lone "
+        "std::len_u8 / std::len_be16 over content that does not fit must declare the count modulo the field width and keep "
+        "the whole content (C15b_len_*_exact).  "
         "Non-trivial = every case (each carries at least one length field); distinct by program text")
 NOTES = ["correspondence: concatenated UDP payloads of the implementation's pcap = the model's; oracle: the extracted "
          "Spec parsers (LenPrefix/TlsParse/DhcpParse/DnsParse) walk the implementation's payload top-down along the tree "
@@ -710,6 +712,14 @@ def check_cases(ctx, cases, tag="c15"):
                 w.add(c, pi, c.gen["roots"], "")
         else:
             ctx.dist["outside_fit_compared_with_model_only"] = ctx.dist.get("outside_fit_compared_with_model_only", 0) + 1
+            roots = c.gen["roots"]
+            if len(roots) == 1 and roots[0].kind == "len" and roots[0].p["k"] in (1, 2) and all(x.fits() for x in roots[0].kids):
+                # C15b_len_u8_exact / C15b_len_be16_exact: the count modulo the width of the field, then the whole content
+                k, inner = roots[0].p["k"], sum(x.size() for x in roots[0].kids)
+                ctx.dist["wrapped_count_as_C15b_states"] = ctx.dist.get("wrapped_count_as_C15b_states", 0) + 1
+                if len(pi) != k + inner or int.from_bytes(pi[:k], "big") != inner % (256 ** k):
+                    w.fail(c, "wrapped-count", "a %d-byte count over %d bytes must declare %d and be followed by all of them; "
+                           "%d bytes produced, declaring %d" % (k, inner, inner % (256 ** k), len(pi), int.from_bytes(pi[:k], "big")))
     rounds = w.run(tag)
     whole = [c for c in cases if c.gen.get("whole") and c.gen.get("agree") is not None and c.name not in w.failed]
     for c, a in zip(whole, common.spec_batch(["%s %s" % (c.gen["whole"][0], payload_of(c.impl.pcap).hex() or "-") for c in whole], tag)):
